@@ -26,7 +26,10 @@ use crate::codec::assert::insufficient_data;
 use crate::codec::family::Family;
 use crate::error::Error;
 use crate::hll::HllType;
+use crate::hll::KEY_BITS_26;
 use crate::hll::KEY_MASK_26;
+use crate::hll::RESIZE_DENOMINATOR;
+use crate::hll::RESIZE_NUMERATOR;
 use crate::hll::container::COUPON_EMPTY;
 use crate::hll::container::Container;
 use crate::hll::serialization::COMPACT_FLAG_MASK;
@@ -42,9 +45,10 @@ pub struct HashSet {
     container: Container,
 }
 
+const LG_INIT_SET_SIZE: usize = 5;
+
 impl Default for HashSet {
     fn default() -> Self {
-        const LG_INIT_SET_SIZE: usize = 5;
         Self::new(LG_INIT_SET_SIZE)
     }
 }
@@ -103,6 +107,29 @@ impl HashSet {
             .read_u32_le()
             .map_err(insufficient_data("coupon_count"))?;
         let coupon_count = coupon_count as usize;
+
+        // The table must be able to hold the coupons below its 75% load limit (it would have
+        // grown otherwise), and no valid writer produces a table more than 8x larger than that.
+        let mut lg_arr = lg_arr;
+        if lg_arr < LG_INIT_SET_SIZE {
+            // early versions did not record the array size: derive it from the count
+            lg_arr = LG_INIT_SET_SIZE;
+            while lg_arr < KEY_BITS_26 as usize
+                && RESIZE_DENOMINATOR as usize * coupon_count
+                    > RESIZE_NUMERATOR as usize * (1usize << lg_arr)
+            {
+                lg_arr += 1;
+            }
+        }
+        if lg_arr > KEY_BITS_26 as usize
+            || RESIZE_DENOMINATOR as usize * coupon_count
+                > RESIZE_NUMERATOR as usize * (1usize << lg_arr)
+            || (1usize << lg_arr) > 8 * coupon_count.max(4)
+        {
+            return Err(Error::deserial(format!(
+                "invalid hash set: lg_arr {lg_arr}, coupon count {coupon_count}"
+            )));
+        }
 
         if compact {
             // Compact mode: only couponCount coupons are stored
